@@ -321,6 +321,39 @@ impl Drop for TVal {
         on_drop("value", self.id, self.epoch, &mut self.magic, self.tok);
     }
 }
+// ordering / hashing / equality needed only to put pairs into ordered and hashed *source*
+// collections (conversions); no fault points here
+impl PartialOrd for TKey {
+    fn partial_cmp(&self, o: &Self) -> Option<std::cmp::Ordering> {
+        Some(self.cmp(o))
+    }
+}
+impl Ord for TKey {
+    fn cmp(&self, o: &Self) -> std::cmp::Ordering {
+        self.p.cmp(&o.p)
+    }
+}
+impl PartialEq for TVal {
+    fn eq(&self, o: &Self) -> bool {
+        self.tok == o.tok
+    }
+}
+impl Eq for TVal {}
+impl PartialOrd for TVal {
+    fn partial_cmp(&self, o: &Self) -> Option<std::cmp::Ordering> {
+        Some(self.cmp(o))
+    }
+}
+impl Ord for TVal {
+    fn cmp(&self, o: &Self) -> std::cmp::Ordering {
+        self.tok.cmp(&o.tok)
+    }
+}
+impl Hash for TVal {
+    fn hash<H: Hasher>(&self, h: &mut H) {
+        h.write_u32(self.tok)
+    }
+}
 impl std::fmt::Debug for TKey {
     fn fmt(&self, f: &mut std::fmt::Formatter<'_>) -> std::fmt::Result {
         write!(f, "K{}", self.p)
